@@ -12,8 +12,13 @@ macro "btac" h:ident : tactic =>
 
 theorem addNode_oom (o o' : Oracle) (s s' : BSt) (n : Node) (h : addNode o s n = (o', s', .oom)) : s'.v = s.v := by
   unfold addNode at h; btac h
-theorem emit_oom (o o' : Oracle) (s s' : BSt) (k : Nat) (c : Bool) (h : emit o s k c = (o', s', .oom)) : s'.v = s.v := by
-  unfold emit at h; btac h
+/-- a failed `_emit`: the node list is untouched and the one-shot state (extra register, options, inline comment) is cleared -
+exactly the one-shot state a successful `_emit` leaves -/
+theorem emit_oom (o o' : Oracle) (s s' : BSt) (k : Nat) (h : emit o s k = (o', s', .oom)) : s'.v = clearOneShot s.v := by
+  unfold emit at h
+  simp only at h
+  repeat' split at h
+  all_goals (first | (cases h; done) | (cases h; rfl))
 theorem codeLabel_oom (o o' : Oracle) (s s' : BSt) (h : codeLabel o s = (o', s', .oom)) : s'.v = s.v := by
   unfold codeLabel at h; btac h
 theorem codeLabel_ok (o o' : Oracle) (s s' : BSt) (h : codeLabel o s = (o', s', .ok)) :
@@ -79,10 +84,14 @@ theorem bind_oom (o o' : Oracle) (s s' : BSt) (l : Nat) (h : bind o s l = (o', s
 /-- `builder_fail_atomic_exact`: under every oracle a Builder call answered out of memory left the node list untouched; the
 only other observable change possible is ONE label id of the CodeHolder used up by a failed `new_label()` -/
 theorem bstep_oom_exact (op : BOp) (o o' : Oracle) (s s' : BSt) (h : bstep op o s = (o', s', .oom)) :
-    s'.v = s.v ∨ (op = .newLabel ∧ s'.v = { s.v with labelCount := s.v.labelCount + 1 }) := by
+    s'.v = s.v ∨ (op = .newLabel ∧ s'.v = { s.v with labelCount := s.v.labelCount + 1 }) ∨
+    (∃ k, op = .emit k ∧ s'.v = clearOneShot s.v) := by
   cases op <;> simp only [bstep] at h
-  case emit k c => left; exact emit_oom _ _ _ _ _ _ h
-  case newLabel => rcases newLabel_oom _ _ _ _ h with h1 | h1; exact Or.inl h1; exact Or.inr ⟨rfl, h1⟩
+  case emit k => right; right; exact ⟨k, rfl, emit_oom _ _ _ _ _ h⟩
+  case setExtra r => cases h
+  case setOpts b => cases h
+  case setComment => cases h
+  case newLabel => rcases newLabel_oom _ _ _ _ h with h1 | h1; exact Or.inl h1; exact Or.inr (Or.inl ⟨rfl, h1⟩)
   case codeLabel => left; exact codeLabel_oom _ _ _ _ h
   case bind l => left; exact bind_oom _ _ _ _ _ h
   case align n => left; exact addNode_oom _ _ _ _ _ h
@@ -118,13 +127,18 @@ theorem newLabelTail_ref (id : Nat) (r : Oracle × BSt × Err) (o' : Oracle) (s'
 documented tolerance: when the inline comment cannot be duplicated the instruction node is added without it -/
 theorem bstep_ref (op : BOp) (o o' : Oracle) (s s' : BSt) (e : Err) (h : bstep op o s = (o', s', e)) (he : e ≠ .oom) :
     (s'.v, e) = bspec op s.v ∨
-    (∃ k, op = .emit k true ∧ e = .ok ∧ s'.v = { s.v with nodes := s.v.nodes ++ [.inst k false] }) := by
+    (∃ k, op = .emit k ∧ s.v.pendCmt = true ∧ e = .ok ∧
+      s'.v = { clearOneShot s.v with nodes := s.v.nodes ++ [.inst k s.v.pendExtra s.v.pendOpts false] }) := by
   cases op <;> simp only [bstep] at h
-  case emit k c =>
+  case emit k =>
     unfold emit at h
+    simp only at h
     repeat' split at h
-    all_goals (first | (cases h; simp at he; done) | skip)
-    all_goals (first | (cases h; left; simp_all [bspec]; done) | (cases h; right; exact ⟨k, by simp_all, rfl, rfl⟩))
+    all_goals (first | (cases h; simp at he; done) | (cases h; left; simp_all [bspec, clearOneShot]; done) |
+      (cases h; right; exact ⟨k, rfl, by assumption, rfl, by simp [clearOneShot]⟩))
+  case setExtra r => left; cases h; rfl
+  case setOpts b => left; cases h; rfl
+  case setComment => left; cases h; rfl
   case newLabel =>
     left
     unfold newLabel at h
@@ -210,8 +224,9 @@ theorem addNode_faults (o o' : Oracle) (s s' : BSt) (n : Node) (e : Err) (h : ad
   unfold addNode at h
   repeat' split at h
   all_goals (cases h; grind)
-theorem emit_faults (o o' : Oracle) (s s' : BSt) (k : Nat) (c : Bool) (e : Err) (h : emit o s k c = (o', s', e)) : Acct o o' e := by
+theorem emit_faults (o o' : Oracle) (s s' : BSt) (k : Nat) (e : Err) (h : emit o s k = (o', s', e)) : Acct o o' e := by
   unfold emit at h
+  simp only at h
   repeat' split at h
   all_goals (cases h; grind)
 theorem codeLabel_faults (o o' : Oracle) (s s' : BSt) (e : Err) (h : codeLabel o s = (o', s', e)) : Acct o o' e := by
@@ -253,7 +268,10 @@ theorem comment_faults (o o' : Oracle) (s s' : BSt) (n : Nat) (e : Err) (h : com
 /-- `builder_oom_consumes_fault`: Builder calls only consume failures, and an out-of-memory answer consumed one -/
 theorem bstep_faults (op : BOp) (o o' : Oracle) (s s' : BSt) (e : Err) (h : bstep op o s = (o', s', e)) : Acct o o' e := by
   cases op <;> simp only [bstep] at h
-  case emit k c => exact emit_faults _ _ _ _ _ _ _ h
+  case emit k => exact emit_faults _ _ _ _ _ _ h
+  case setExtra r => cases h; simp [Acct]
+  case setOpts b => cases h; simp [Acct]
+  case setComment => cases h; simp [Acct]
   case newLabel =>
     unfold newLabel at h
     generalize hc : codeLabel o s = r at h
@@ -310,10 +328,14 @@ theorem codeLabel_binv (o o' : Oracle) (s s' : BSt) (e : Err) (hI : BInv s) (hb 
 theorem bstep_binv (op : BOp) (o o' : Oracle) (s s' : BSt) (e : Err) (hI : BInv s) (hb : s.v.labelCount + 1 ≤ 2 ^ 40)
     (h : bstep op o s = (o', s', e)) : BInv s' ∧ s'.v.labelCount ≤ s.v.labelCount + 1 := by
   cases op <;> simp only [bstep] at h
-  case emit k c =>
+  case emit k =>
     unfold emit at h
+    simp only at h
     repeat' split at h
-    all_goals (cases h; exact ⟨hI, by simp⟩)
+    all_goals (cases h; exact ⟨by unfold BInv at *; simpa [clearOneShot] using hI, by simp [clearOneShot]⟩)
+  case setExtra r => cases h; exact ⟨by unfold BInv at *; simpa using hI, by simp⟩
+  case setOpts b => cases h; exact ⟨by unfold BInv at *; simpa using hI, by simp⟩
+  case setComment => cases h; exact ⟨by unfold BInv at *; simpa using hI, by simp⟩
   case newLabel =>
     unfold newLabel at h
     generalize hc : codeLabel o s = r at h
